@@ -689,6 +689,63 @@ def run(only=None):
         s.done()
         rep.log(f"built_frames: {s.n} frames ({len(sp)} product + {len(items)} pairs), {len(s.viol)} violation signatures, {s.wall}s")
 
+
+    if not only or "history_with_ill_formed_frames" in only:
+        # histories of length 2 whose first frame is outside the domain (undefined type values, contradictory repeated bytes, cut or
+        # over-long frames): whatever the library does with it, the well-formed frames decoded afterwards give what they gave before
+        from mc import hist
+        s = rep.sub("history_with_ill_formed_frames",
+                    "2 decoder paths x ill-formed variants of 2 captured frames (undefined packet / slot / frame / call type, timeslot and colour "
+                    "words with unequal halves, wrong magic, non-zero id low bytes, 0/10/71/73-byte frames) followed by 8 captured well-formed "
+                    "frames through both paths: same observables and the same re-encoded 72 bytes as before the ill-formed frame")
+        caps = [bytes.fromhex(h) for h in CAPTURED]
+        by_type = {}
+        for fr in caps:
+            by_type.setdefault((fr[8], fr[16]), fr)
+        probe_frames = list(by_type.values())[:8]
+
+        def both(fr):
+            out = []
+            for path in (lambda: fr, lambda: IpSiteConnectProtocol.from_bytes(fr)):
+                o, b = observe(path())
+                out.append((tuple(sorted((k, repr(v)) for k, v in o.items() if k != "repr")), b.hytera_ipsc.as_ipsc_bytes().hex() if b is not None else None))
+            return tuple(out)
+
+        probes = [(f"frame_{i}_type_{fr[8]:02x}", (lambda fr=fr: both(fr))) for i, fr in enumerate(probe_frames)]
+
+        def variants():
+            for bi, base in enumerate((caps[0], caps[2])):
+                def put(off, val, base=base):
+                    return base[:off] + val + base[off + len(val):]
+                for v in (0x00, 0x40, 0x44, 0x45, 0xFF):
+                    yield f"base{bi}_packet_type_{v:02x}", put(8, bytes([v]))
+                for v in (b"\x00\x00", b"\xff\xff", b"\x12\x34", b"\x11\x22"):
+                    yield f"base{bi}_slot_type_{v.hex()}", put(18, v)
+                    yield f"base{bi}_frame_type_{v.hex()}", put(22, v)
+                    yield f"base{bi}_timeslot_{v.hex()}", put(16, v)
+                    yield f"base{bi}_colour_{v.hex()}", put(20, v)
+                for v in (0x03, 0x07, 0xFF):
+                    yield f"base{bi}_call_type_{v:02x}", put(62, bytes([v]))
+                yield f"base{bi}_magic", put(2, b"\xa5\xa5")
+                yield f"base{bi}_id_low_bytes", put(63, b"\x7f") [:67] + b"\x7f" + base[68:]
+                for n in (0, 10, 71):
+                    yield f"base{bi}_cut_to_{n}", base[:n]
+                yield f"base{bi}_73_bytes", base + b"\x00"
+
+        bad_args = [(lab, (lambda fr=fr: fr)) for lab, fr in variants()]
+        funcs = {
+            "from_hytera_ipsc(bytes)": lambda fr: Burst.from_hytera_ipsc(fr).hytera_ipsc.as_ipsc_bytes(),
+            "from_hytera_ipsc(parser object)": lambda fr: Burst.from_hytera_ipsc(IpSiteConnectProtocol.from_bytes(fr)).hytera_ipsc.as_ipsc_bytes(),
+        }
+        import contextlib, io, logging
+        logging.disable(logging.CRITICAL)
+        try:
+            with contextlib.redirect_stdout(io.StringIO()):
+                hist.poisoned_histories(s, funcs, bad_args, probes, nchildren=2)
+        finally:
+            logging.disable(logging.NOTSET)
+        s.done()
+
     rep.bounds = {
         "sequence": "all 256" if t else "0,1,127,128,255",
         "types": "4 packet types, 6 frame types, 4 call types (wake-up call types only with the wake-up slot type), 15 slot types, 2 timeslots, 16 colour codes",
